@@ -324,6 +324,66 @@ func c15(c *hx.Ctx) {
 		c.Case(hx.App("HParse", hx.Str(s), o), map[string]any{"kind": "parse", "text": s, "hex": hx.Hex([]byte(s))})
 	}
 
+	// every proper prefix (exact / spare capacity) and trailing bytes of valid encodings, binary and text
+	for _, hv := range []*bhash.Hash{bhash.NewHash(bhash.HashType_HashType_SHA1, c.RandBytes(20)), bhash.NewHash(bhash.HashType_HashType_BLAKE3, c.RandBytes(32)), bhash.NewHash(-1, c.RandBytes(3))} {
+		enc := hv.MarshalDigest()
+		for _, v := range truncations(c, enc, 1) {
+			c.Class("hash-" + v.kind)
+			desc := map[string]any{"kind": "decode", "class": v.kind, "bytes": hx.Hex(v.b), "cap_minus_len": cap(v.b) - len(v.b)}
+			var back *bhash.Hash
+			var err error
+			var p bool
+			o := guarded(c, "Hash.UnmarshalVT", desc, [][]byte{v.b}, func() string {
+				back = &bhash.Hash{}
+				p, _ = hx.Catch(func() { err = back.UnmarshalVT(v.b) })
+				if p {
+					return oPanic
+				} else if err == nil {
+					return oOk(pair(int32(back.GetHashType()), back.GetHash()))
+				}
+				return oErr(20)
+			})
+			c.Case(hx.App("HUnmarshal", hx.Bytes(v.b), o), desc)
+			if p {
+				c.Failf("unmarshal-panic", desc, "Hash.UnmarshalVT panicked")
+			} else if err == nil && !bytes.Contains(v.b, back.GetHash()) {
+				c.Failf("digest-not-in-input", desc, "decoded digest %x does not occur in the input (read past the input?)", back.GetHash())
+			}
+			if cap(v.b) > len(v.b) && !spareIntact(v.b) {
+				c.Failf("writes-past-len", desc, "Hash.UnmarshalVT wrote past the end of the input slice")
+			}
+		}
+		tstep := 1
+		if c.Tier != "thorough" {
+			tstep = 3
+		}
+		for _, t := range textCuts(hv.MarshalString(), tstep) {
+			c.Class("hash-text-cut")
+			desc := map[string]any{"kind": "parse", "text": t}
+			var b2 *bhash.Hash
+			var perr error
+			var p bool
+			o := guarded(c, "ParseFromB58", desc, nil, func() string {
+				b2 = &bhash.Hash{}
+				p, _ = hx.Catch(func() { perr = b2.ParseFromB58(t) })
+				if p {
+					return oPanic
+				} else if perr == nil {
+					return oOk(pair(int32(b2.GetHashType()), b2.GetHash()))
+				}
+				return oErr(0)
+			})
+			c.Case(hx.App("HParse", hx.Str(t), o), desc)
+			if p {
+				c.Failf("parsefromb58-panic", desc, "ParseFromB58 panicked on %q", t)
+			} else if perr == nil {
+				if dec, derr := b58.Decode(t); derr != nil || !bytes.Contains(dec, b2.GetHash()) {
+					c.Failf("digest-not-in-input", desc, "parsed digest %x does not occur in the decoded text", b2.GetHash())
+				}
+			}
+		}
+	}
+
 	// every operation on hashes obtained by DECODING equivalent, non-canonical encodings
 	nDec := c.N * 3 / 10
 	for i := 0; i < nDec; i++ {
